@@ -57,43 +57,51 @@ def build(item):
     def h(sym):
         e3.reset_coverage_registry()
         cg, order = covref.build_cg(vsc, spec, enum_classes)
-        cpm = cg.get_model().coverpoint_l[0]
-        t = cp["type"]
-        base = tbase = None
+        cps = spec["cps"]
+        refs = [covref.ref_bins(c, ENUMS) for c in cps]
+        cpms = [cg.get_model().coverpoint_l[i] for i in range(len(cps))]
+        tcps = [cg.get_model().type_cg.coverpoint_l[i] for i in range(len(cps))]
+        bases = [None] * len(cps)
+        tbases = [None] * len(cps)
         if item.get("prestate"):
             # the samples arrive in an arbitrary valid earlier state (symbolic counts, unhit set consistent with at_least)
             from checks.c13 import inject
-            al = cp.get("at_least") or 1
-            tcp0 = cg.get_model().type_cg.coverpoint_l[0]
-            inject(sym, cpm, "I", al, item["prestate"])
-            inject(sym, tcp0, "T", al, item["prestate"])
-            base = (list(cpm.hit_l), list(cpm.hit_ignore_l), list(cpm.hit_illegal_l))
-            tbase = (list(tcp0.hit_l), list(tcp0.hit_ignore_l), list(tcp0.hit_illegal_l))
-        vals_iffs = []
+            for i, c in enumerate(cps):
+                al = c.get("at_least") or 1
+                inject(sym, cpms[i], "I%d" % i, al, item["prestate"])
+                inject(sym, tcps[i], "T%d" % i, al, item["prestate"])
+                bases[i] = (list(cpms[i].hit_l), list(cpms[i].hit_ignore_l), list(cpms[i].hit_illegal_l))
+                tbases[i] = (list(tcps[i].hit_l), list(tcps[i].hit_ignore_l), list(tcps[i].hit_illegal_l))
+        vals_iffs = [[] for _ in cps]
         for s in range(ns):
             args = []
-            if t[0] == "enum":
-                ev = item["enum_samples"][s]
-                v = ev
-                args.append(enum_classes[t[1]](ev))
-            else:
-                lo, hi = covref.type_range(t)
-                v = sym.int("v%d" % s, lo, hi)
-                args.append(v)
-            iff = True
-            if cp.get("iff"):
-                f = sym.int("iff%d" % s, 0, 1)
-                iff = (f != 0)
-                args.append(f)
-            vals_iffs.append((v, iff))
+            for i, c in enumerate(cps):
+                t = c["type"]
+                if t[0] == "enum":
+                    ev = item["enum_samples"][s]
+                    v = ev
+                    args.append(enum_classes[t[1]](ev))
+                else:
+                    lo, hi = covref.type_range(t)
+                    v = sym.int("v%d%s" % (s, "" if i == 0 else "_%d" % i), lo, hi)
+                    args.append(v)
+                iff = True
+                if c.get("iff"):
+                    # the condition holds iff the sampled iff value is non-zero (any width)
+                    f = sym.int("iff%d%s" % (s, "" if i == 0 else "_%d" % i), 0, (1 << (c.get("iff_width") or 1)) - 1)
+                    iff = (f != 0)
+                    args.append(f)
+                vals_iffs[i].append((v, iff))
             cg.sample(*args)
-        cp_obligations(sym, cpm, ref, vals_iffs, base=base)
-        # the type-level model of a single instance sees the same hits
-        tcp = cg.get_model().type_cg.coverpoint_l[0]
-        if tbase is not None:
-            cp_obligations(sym, tcp, ref, vals_iffs, tag="type:", base=tbase)
-        for i in range(min(tcp.get_n_bins(), cpm.get_n_bins()) if tbase is None else 0):
-            sym.check("type_bin_hits[%d]" % i, tcp.get_bin_hits(i) == cpm.get_bin_hits(i))
+        for i in range(len(cps)):
+            tag = "" if i == 0 else "cp%d:" % i
+            cp_obligations(sym, cpms[i], refs[i], vals_iffs[i], tag=tag, base=bases[i])
+            # the type-level model of a single instance sees the same hits
+            if tbases[i] is not None:
+                cp_obligations(sym, tcps[i], refs[i], vals_iffs[i], tag=tag + "type:", base=tbases[i])
+            else:
+                for k in range(min(tcps[i].get_n_bins(), cpms[i].get_n_bins())):
+                    sym.check(tag + "type_bin_hits[%d]" % k, tcps[i].get_bin_hits(k) == cpms[i].get_bin_hits(k))
     return dict(harness=h, theory="int", sig=sig, standins=e3.coverage_standins, max_paths=item.get("max_paths", 4000),
                 max_seconds=item.get("max_seconds", 90), desc="coverpoint %s x%d" % (_short(cp), ns))
 
@@ -240,7 +248,32 @@ def shapes(t, sd):
                  "ignore": [["ig", [3]]], "illegal": [["il", [[100, 101]]]]}, "from_state_mixed", ns=2, prestate=pat)
             add({"type": ["u", 3], "auto_bin_max": 4, "at_least": al}, "from_state_auto", ns=2, prestate=pat)
         add({"type": U8, "bins": [["w", "wild", [[0b0100, 0b1100]]], ["lo", "bin", [[0, 3]]]]}, "from_state_wild", ns=2, prestate=pat)
+    # one bin specification object shared by two coverpoints, ignore/illegal cuts on one of them only
+    shared_bins = [["lo", "bin", [[0, 7]]], ["hi", "bin", [[8, 15]]], ["ar", "array", 2, [[2, 5], [10, 13]]]]
+    for cut_kind in ("ignore", "illegal"):
+        for first in (0, 1):
+            c_cut = {"name": "pa", "type": ["u", 4], "bins": shared_bins, cut_kind: [["x", [3, 12]]]}
+            c_plain = {"name": "pb", "type": ["u", 4], "bins": shared_bins}
+            if first == 0:
+                c_plain = dict(c_plain, share_bins_of="pa")
+                cpl = [c_cut, c_plain]
+            else:
+                c_cut = dict(c_cut, share_bins_of="pb")
+                cpl = [c_plain, c_cut]
+            items.append(dict(spec={"cps": cpl}, nsamples=1, shape="shared_bin_objects_%s" % cut_kind))
+    # iff given by a multi-bit field: any non-zero value enables sampling
+    for iw in (2, 4, 8):
+        add({"type": U8, "bins": [["a", "array", 2, [[0, 9]]], ["b", "bin", [200]]], "iff": "field", "iff_width": iw}, "iff_multibit", ns=2)
+    add({"type": ["u", 3], "iff": "field", "iff_width": 3, "auto_bin_max": 4, "ignore": [["ig", [3]]]}, "iff_multibit", ns=2)
+    # ignore / illegal bins listed out of ascending order
+    for items_ in ([9, 2], [[12, 13], 5], [7, [1, 3]], [200, 100, 50]):
+        add({"type": U8, "bins": [["b", "bin", [[0, 20]]], ["c", "array", 2, [[40, 47]]]], "ignore": [["ig", items_]]}, "unordered_ignore", ns=2)
+        add({"type": U8, "bins": [["b", "bin", [[0, 20]]]], "illegal": [["il", items_]]}, "unordered_illegal", ns=2)
+        add({"type": U8, "bins": [["a", "array", None, [[0, 9]]]], "ignore": [["i1", items_[:1]], ["i2", items_[1:]]]}, "unordered_ignore", ns=1)
     # auto bins
+    for w in (7, 8):
+        for abm in (65, 100, 128, 256):
+            add({"type": ["u", w], "auto_bin_max": abm}, "auto_above_default", max_paths=20000, max_seconds=200)
     for w in (1, 2, 3, 4, 8):
         for abm in (None, 1, 2, 3, 5, 64):
             add({"type": ["u", w], "auto_bin_max": abm}, "auto")
